@@ -37,3 +37,4 @@ def check(ctx):
     step.sv_initial_hamiltonian(ctx)
     drivers.phase_shortcut(ctx)
     drivers.sv_current_hamiltonian(ctx)
+    drivers.sv_solver_table(ctx)
